@@ -254,10 +254,12 @@ _mtbl_sorter_write_chunk(struct entry_batch *b)
 	entry_vec_destroy(&b->entries);
 	free(b);
 
-	if (res != mtbl_res_success)
-		return (NULL);
-
-	return (mtbl_reader_init_fd(fd, NULL));
+	struct mtbl_reader *r = NULL;
+	if (res == mtbl_res_success)
+		r = mtbl_reader_init_fd(fd, NULL);
+	/* the writer worked on a dup and the reader has its mapping: the descriptor is done */
+	close(fd);
+	return (r);
 }
 
 mtbl_res
